@@ -277,4 +277,253 @@ theorem C19_point_never_ok (s : Site) (u : UnitId) (r : Rep) (v : Value) :
 example : atSite .argument (.qty 3 (.int .i16)) = .ok (.qty ⟨3, .int .i16 0⟩) := by decide
 example : atSite .argument (.point 3 (.int .i16)) = .hard .deleted := by decide
 
+/-! ## Proof-extension round: further entry points -/
+
+/-- **C19, compound assignment.**  `q += ZERO` and `q -= ZERO` are accepted (the operand slot is
+a `Quantity`, filled through `Quantity(Zero)`), free of UB and wrap, and leave a quantity of the
+same unit *and the same rep* holding the same number: bit-identical for integers and for `-=`;
+`+=` turns `-0.0` into `+0.0`. -/
+theorem C19_compound (u : UnitId) (v : Val) (hv : v.wf) (o : ArOp) :
+    ∃ w : Val, compoundWithZero o ⟨u, v⟩ = .ok (.qty ⟨u, w⟩) ∧ w.rep = v.rep ∧ sameNumber w v ∧
+      (w = v ∨ (o = .add ∧ v.signClass = .zero)) := by
+  cases v with
+  | int t x =>
+    obtain ⟨ht, hx⟩ := hv
+    obtain ⟨h1, h2, _⟩ := addIn_zero t ht x hx
+    refine ⟨.int t x, ?_, rfl, rfl, Or.inl rfl⟩
+    cases o <;>
+      simp [compoundWithZero, convertZero, Val.rep, lit0, qtyCompound, valArith, h1, h2, castTo,
+        wrap_id t ht x hx]
+  | flt f x =>
+    cases o with
+    | add =>
+      refine ⟨.flt f (if x = .fin true 0 0 then .fin false 0 0 else x), ?_, rfl, ?_, ?_⟩
+      · simp [compoundWithZero, convertZero, Val.rep, lit0, qtyCompound, valArith, castTo,
+          fAdd_zero_right f x hv]
+      · by_cases hz : x = .fin true 0 0
+        · subst hz; exact ⟨rfl, Or.inr ⟨rfl, rfl⟩⟩
+        · simp [hz, sameNumber]
+      · by_cases hz : x = .fin true 0 0
+        · subst hz; exact Or.inr ⟨rfl, rfl⟩
+        · simp [hz]
+    | sub =>
+      refine ⟨.flt f x, ?_, rfl, ⟨rfl, Or.inl rfl⟩, Or.inl rfl⟩
+      simp [compoundWithZero, convertZero, Val.rep, lit0, qtyCompound, valArith, castTo,
+        fSub_zero_right f x hv]
+
+example : compoundWithZero .add ⟨4, .int .i8 (-128)⟩ = .ok (.qty ⟨4, .int .i8 (-128)⟩) := by decide
+example : compoundWithZero .sub ⟨4, .flt .f32 (.fin true 0 0)⟩ = .ok (.qty ⟨4, .flt .f32 (.fin true 0 0)⟩) := by
+  decide
+
+/-- **C19, reading the value back.**  All four spellings of "the value in the quantity's own unit"
+(`in(u)`, `in(maker)`, `in<Rep>(u)`, `data_in(u)`) return the stored value; for a quantity
+initialised from ZERO that is the exact zero of the rep. -/
+theorem C19_read_back (u : UnitId) (v : Val) (hv : v.wf) :
+    (⟨u, v⟩ : Qty).inOwnUnit = v ∧ (⟨u, v⟩ : Qty).inViaMaker = v ∧ (⟨u, v⟩ : Qty).dataIn = v ∧
+    (⟨u, v⟩ : Qty).inRepExplicit = some v := by
+  refine ⟨rfl, rfl, rfl, ?_⟩
+  cases v with
+  | int t x => simp [Qty.inRepExplicit, Val.rep, castTo, wrap_id t hv.1 x hv.2]
+  | flt f x => simp [Qty.inRepExplicit, Val.rep, castTo]
+
+theorem C19_init_read_back (s : Site) (u : UnitId) (r : Rep) (hr : r ∈ Rep.all) :
+    ∃ q : Qty, atSite s (.qty u r) = .ok (.qty q) ∧ q.inOwnUnit = lit0 r ∧ q.inViaMaker = lit0 r ∧
+      q.dataIn = lit0 r ∧ q.inRepExplicit = some (lit0 r) := by
+  obtain ⟨q, h1, _, h3, h4, _⟩ := C19_init s u r hr
+  have hq : q = ⟨q.unit, q.val⟩ := rfl
+  have hv : q.val = lit0 r := h3
+  have hw : q.val.wf := h4.2.2
+  obtain ⟨a, b, c, d⟩ := C19_read_back q.unit q.val hw
+  exact ⟨q, h1, h3, by rw [← hv]; exact b, by rw [← hv]; exact c, by rw [← hv]; exact d⟩
+
+example : (⟨1, .int .u16 65535⟩ : Qty).inRepExplicit = some (.int .u16 65535) := by decide
+
+/-- **C19, the point side beyond rejection.**  `p + ZERO` and `ZERO + p` are accepted — the other
+operand of the point's `operator+` is a *quantity* (`Diff`) slot — and give a point of the same
+unit and the same rep holding the same number (`-0.0` becomes `+0.0`). -/
+theorem C19_point_plus_zero (u : UnitId) (v : Val) (hv : v.wf) (dLeft : Bool) :
+    ∃ w : Val, pointPlusZero dLeft ⟨u, v⟩ = .ok (.point ⟨u, w⟩) ∧ w.rep = v.rep ∧ sameNumber w v ∧
+      (w = v ∨ v.signClass = .zero) := by
+  cases v with
+  | int t x =>
+    obtain ⟨ht, hx⟩ := hv
+    obtain ⟨h1, _, h3⟩ := addIn_zero t ht x hx
+    refine ⟨.int t x, ?_, rfl, rfl, Or.inl rfl⟩
+    cases dLeft <;>
+      simp [pointPlusZero, convertZero, Val.rep, lit0, ptPlusDiff, qtyFriend, valArith, h1, h3, castTo,
+        wrap_id t ht x hx]
+  | flt f x =>
+    refine ⟨.flt f (if x = .fin true 0 0 then .fin false 0 0 else x), ?_, rfl, ?_, ?_⟩
+    · cases dLeft <;>
+        simp [pointPlusZero, convertZero, Val.rep, lit0, ptPlusDiff, qtyFriend, valArith, castTo,
+          fAdd_zero_right f x hv, fAdd_zero_left f x hv]
+    · by_cases hz : x = .fin true 0 0
+      · subst hz; exact ⟨rfl, Or.inr ⟨rfl, rfl⟩⟩
+      · simp [hz, sameNumber]
+    · by_cases hz : x = .fin true 0 0
+      · subst hz; exact Or.inr rfl
+      · simp [hz]
+
+/-- The older `binop` clause for `p + ZERO` yields the same number (it keeps the promoted rep of
+the intermediate sum; `pointPlusZero` adds the conversion back to `Rep`). -/
+theorem C19_point_plus_zero_binop (u : UnitId) (v : Val) (hv : v.wf) :
+    ∃ w : Val, binop (.ar .add) (.point ⟨u, v⟩) .zero = .ok (.point ⟨u, w⟩) ∧ sameNumber w v ∧
+    ∃ w' : Val, binop (.ar .add) .zero (.point ⟨u, v⟩) = .ok (.point ⟨u, w'⟩) ∧ sameNumber w' v := by
+  obtain ⟨w, h1, _, hs⟩ := C19_add_sub u v hv (.qty ⟨u, v⟩) .zero .add (Or.inl ⟨rfl, rfl⟩)
+  obtain ⟨w', h2, _, hs'⟩ := C19_add_sub u v hv .zero (.qty ⟨u, v⟩) .add (Or.inr ⟨rfl, rfl, rfl⟩)
+  simp only [binop, convertZero] at h1 h2 ⊢
+  refine ⟨w, ?_, hs, w', ?_, hs'⟩
+  · rw [h1]
+  · rw [h2]
+
+example : pointPlusZero false ⟨9, .int .u8 255⟩ = .ok (.point ⟨9, .int .u8 255⟩) := by decide
+example : pointPlusZero true ⟨9, .flt .f64 (.inf true)⟩ = .ok (.point ⟨9, .flt .f64 (.inf true)⟩) := by decide
+
+/-! ## `ZERO - q` -/
+
+/-- "`ZERO - q` is `-q` without undefined behaviour", for every value. -/
+def C19_zero_minus_full : Prop :=
+  ∀ (u : UnitId) (v : Val), v.wf → ∃ w, binop (.ar .sub) .zero (.qty ⟨u, v⟩) = .ok (.qty ⟨u, w⟩)
+
+/-- False: `ZERO - q` at the minimum of a 32/64-bit signed rep is `0 - INT_MIN` (signed overflow).
+Inherent to two's complement negation; the statement of C19 does not name this expression. -/
+theorem C19_zero_minus_counterexample : ¬ C19_zero_minus_full := by
+  intro h
+  obtain ⟨w, hw⟩ := h 0 (.int .i32 (-2147483648)) (by decide)
+  have e : binop (.ar .sub) .zero (.qty ⟨0, .int .i32 (-2147483648)⟩)
+      = .ub "signed overflow in subtraction" := by decide
+  rw [e] at hw
+  cases hw
+
+/-- Everywhere else `ZERO - q` is accepted and is exactly `-q` in `decltype(R - R)`: integers whose
+promoted type is signed, except that type's minimum; every float (`(+0.0) - (+0.0) = +0.0`). -/
+theorem C19_zero_minus_partial (u : UnitId) :
+    (∀ (t : IntTy) (x : Int), t ∈ IntTy.all → t.inRange x → t.promote.signed = true → x ≠ t.promote.lo →
+      binop (.ar .sub) .zero (.qty ⟨u, .int t x⟩) = .ok (.qty ⟨u, .int t.promote (-x)⟩)) ∧
+    (∀ (f : FltTy) (x : FVal), x.wf f →
+      binop (.ar .sub) .zero (.qty ⟨u, .flt f x⟩)
+        = .ok (.qty ⟨u, .flt f (if x = .fin false 0 0 then .fin false 0 0 else fNeg x)⟩)) := by
+  constructor
+  · intro t x ht hx hs hm
+    simp [binop, convertZero, Val.rep, lit0, qtyFriend, valArith, subIn_zero_left t ht x hx hs hm]
+  · intro f x hx
+    simp [binop, convertZero, Val.rep, lit0, qtyFriend, valArith, fSub_zero_left f x hx]
+
+example : binop (.ar .sub) .zero (.qty ⟨1, .int .i8 (-128)⟩) = .ok (.qty ⟨1, .int .i32 128⟩) := by decide
+example : binop (.ar .sub) .zero (.qty ⟨1, .int .i64 (-9223372036854775808)⟩)
+    = .ub "signed overflow in subtraction" := by decide
+
+/-! ## Unit independence
+
+`ZERO` never needs a unit conversion: in the model the unit is an identifier that the anchored code
+only carries along.  Formally, every expression mixing `ZERO` with one quantity or point commutes
+with an arbitrary relabelling of units — so no property of the unit (its dimension, its magnitude,
+rational or irrational, its origin) can influence the result, and in particular no magnitude is
+ever applied: nothing can overflow or truncate. -/
+
+def relabelValue (g : UnitId → UnitId) : Value → Value
+  | .qty q => .qty ⟨g q.unit, q.val⟩
+  | .point p => .point ⟨g p.unit, p.val⟩
+  | v => v
+
+def relabelOutcome (g : UnitId → UnitId) : Outcome → Outcome
+  | .ok v => .ok (relabelValue g v)
+  | o => o
+
+def relabelTy (g : UnitId → UnitId) : Ty → Ty
+  | .qty u r => .qty (g u) r
+  | .point u r => .point (g u) r
+  | t => t
+
+theorem C19_unit_independent_convert (g : UnitId → UnitId) (s : Site) (t : Ty) :
+    atSite s (relabelTy g t) = relabelOutcome g (atSite s t) := by
+  cases t <;> rfl
+
+theorem qtyFriend_relabel (g : UnitId → UnitId) (op : BinOp) (u : UnitId) (a b : Val) :
+    qtyFriend op ⟨g u, a⟩ ⟨g u, b⟩ = relabelOutcome g (qtyFriend op ⟨u, a⟩ ⟨u, b⟩) := by
+  unfold qtyFriend
+  simp only [if_true]
+  cases op with
+  | cmp c =>
+    dsimp only
+    cases h : valCmp c a b <;> rfl
+  | ar o =>
+    dsimp only
+    cases h : valArith o a b with
+    | none => rfl
+    | some e => cases e <;> rfl
+
+/-- **C19, unit independence.**  For every relabelling `g` of units, every operator and value:
+`q op ZERO`, `ZERO op q`, `q ± ZERO`, `ZERO ± q`, the compound assignments, `p + ZERO`, `ZERO + p`
+and the (rejected) point comparisons give, for unit `g u`, exactly the outcome for unit `u`
+relabelled. -/
+theorem C19_unit_independent (g : UnitId → UnitId) (op : BinOp) (u : UnitId) (v : Val) :
+    binop op (.qty ⟨g u, v⟩) .zero = relabelOutcome g (binop op (.qty ⟨u, v⟩) .zero) ∧
+    binop op .zero (.qty ⟨g u, v⟩) = relabelOutcome g (binop op .zero (.qty ⟨u, v⟩)) ∧
+    binop op (.point ⟨g u, v⟩) .zero = relabelOutcome g (binop op (.point ⟨u, v⟩) .zero) ∧
+    binop op .zero (.point ⟨g u, v⟩) = relabelOutcome g (binop op .zero (.point ⟨u, v⟩)) := by
+  refine ⟨?_, ?_, ?_, ?_⟩
+  · simp only [binop, convertZero]; exact qtyFriend_relabel g op u v _
+  · simp only [binop, convertZero]; exact qtyFriend_relabel g op u _ v
+  · cases op with
+    | cmp c => rfl
+    | ar o =>
+      cases o with
+      | sub => rfl
+      | add =>
+        simp only [binop, convertZero]
+        rw [qtyFriend_relabel g (.ar .add) u v _]
+        cases h : qtyFriend (.ar .add) ⟨u, v⟩ ⟨u, lit0 v.rep⟩ with
+        | ok w => cases w <;> rfl
+        | ub _ => rfl
+        | hard _ => rfl
+  · cases op with
+    | cmp c => rfl
+    | ar o =>
+      cases o with
+      | sub => rfl
+      | add =>
+        simp only [binop, convertZero]
+        rw [qtyFriend_relabel g (.ar .add) u _ v]
+        cases h : qtyFriend (.ar .add) ⟨u, lit0 v.rep⟩ ⟨u, v⟩ with
+        | ok w => cases w <;> rfl
+        | ub _ => rfl
+        | hard _ => rfl
+
+theorem C19_unit_independent_extra (g : UnitId → UnitId) (o : ArOp) (u : UnitId) (v : Val) (dLeft : Bool) :
+    compoundWithZero o ⟨g u, v⟩ = relabelOutcome g (compoundWithZero o ⟨u, v⟩) ∧
+    pointPlusZero dLeft ⟨g u, v⟩ = relabelOutcome g (pointPlusZero dLeft ⟨u, v⟩) := by
+  constructor
+  · simp only [compoundWithZero, convertZero, qtyCompound, if_true]
+    cases h : valArith o v (lit0 v.rep) with
+    | none => rfl
+    | some e =>
+      cases e with
+      | ub _ => rfl
+      | ok w => cases h2 : castTo v.rep w <;> simp [relabelOutcome, relabelValue, h2]
+  · simp only [pointPlusZero, convertZero, ptPlusDiff]
+    cases dLeft
+    · simp only [Bool.false_eq_true, if_false]
+      rw [qtyFriend_relabel g (.ar .add) u v _]
+      cases h : qtyFriend (.ar .add) ⟨u, v⟩ ⟨u, lit0 v.rep⟩ with
+      | ok w =>
+        cases w with
+        | qty s => cases h2 : castTo v.rep s.val <;> simp [relabelOutcome, relabelValue, h2]
+        | _ => rfl
+      | ub _ => rfl
+      | hard _ => rfl
+    · simp only [if_true]
+      rw [qtyFriend_relabel g (.ar .add) u _ v]
+      cases h : qtyFriend (.ar .add) ⟨u, lit0 v.rep⟩ ⟨u, v⟩ with
+      | ok w =>
+        cases w with
+        | qty s => cases h2 : castTo v.rep s.val <;> simp [relabelOutcome, relabelValue, h2]
+        | _ => rfl
+      | ub _ => rfl
+      | hard _ => rfl
+
+/-- Non-vacuity: a relabelling that is not even injective. -/
+example : binop (.cmp .lt) (.qty ⟨(fun _ => 7) 3, .int .i8 (-1)⟩) .zero
+    = relabelOutcome (fun _ => 7) (binop (.cmp .lt) (.qty ⟨3, .int .i8 (-1)⟩) .zero) := by decide
+
 end Au
